@@ -38,10 +38,18 @@ RULE = ("arity-2 screens with 1-2 samples, 2-4 treatments, 2-5 plates; plate 0 (
         "interaction model can predict everywhere, the other plates hold combinations, repeated conditions and extra singles and are observed "
         "at random (at least one masked); observed values from (0,1) plus 0, 1 and >1; masked values replaced by 0 / 1 / 0.37 / -2.5 / NaN "
         "(one uniform poison per variant plus a mixed one); the first pairs (negative, NaN, mixed) also run the four command line programs on saved files; "
+        "hardening classes generated in every run (counters class.*): read-only strided / Fortran / negative-stride / <U64 input arrays, names >= 25 chars, "
+        "supplied mappings with id gaps, control spelled three ways, plate id 0 masked, nothing observed, masked +-inf / -0.0, np.int64 batch ids, "
+        "batches >= 2, more chunks than plates, one scorer/metric object reused for all calls, one model trained in two instalments, every model attribute "
+        "compared by introspection, inputs snapshotted for in-place writes, the CLI chain repeated in a second interpreter with another PYTHONHASHSEED; "
         "every pair also hands random selection vectors (observed only, observed + masked, masked only, empty, whole screen) directly to add_observations. Non-trivial: >=1 masked row, >=2 observed combination rows, >=1 observed "
         "single-agent row, and the pair differs in at least one masked value that is NaN or negative.")
 
-POISONS = [("zero", 0.0), ("one", 1.0), ("finite", 0.37), ("negative", -2.5), ("nan", float("nan"))]
+POISONS = [("zero", 0.0), ("one", 1.0), ("finite", 0.37), ("negative", -2.5), ("nan", float("nan")), ("inf", float("inf")),
+           ("neginf", float("-inf")), ("negzero", -0.0)]
+# order in which the variants are used: the first pairs of a run also go through the command line programs
+KIND_ORDER = ["negative", "nan", "mixed", "neginf", "inf", "zero", "one", "finite", "negzero"]
+LONG = "_a_name_longer_than_25_characters"
 MODELS = [("combo", "batchie.models.sparse_combo", "SparseDrugCombo"),
           ("interaction", "batchie.models.sparse_combo_interaction", "SparseDrugComboInteraction")]
 
@@ -61,44 +69,68 @@ def get_model_cls(kind):
     raise KeyError(kind)
 
 
-def gen_base(rng, big=False):
-    """raw screen (no poison yet); masked rows carry 0.5"""
+def gen_base(rng, big=False, force=None):
+    """raw screen (no poison yet); masked rows carry 0.5.  `force`: None | "no-observed" | "plate0-masked" """
     ns = rng.randint(1, 2)
     samples = ["s%d" % i for i in range(ns)]
     names = rng.sample(["a", "b", "c", "d"], rng.randint(2, 3))
     doses = rng.sample([1.0, 2.0, 0.5], rng.randint(1, 2))
+    long_names = rng.random() < 0.2
+    if long_names:      # names longer than any fixed-width buffer a refactor might allocate
+        samples = [s + LONG for s in samples]
+        names = [n + LONG for n in names]
     treats = [(n, d) for n in names for d in doses]
-    ctrl = ("control", 0.0)
+    # three spellings of "no treatment": the control name at dose 0, the control name at a positive dose, a drug at dose 0
+    ctrls = [("control", 0.0), ("control", 2.0), (names[0], 0.0)]
+
+    def ctrl():
+        return ctrls[0] if rng.random() < 0.6 else rng.choice(ctrls)
+    # the plate with every single-agent row: usually the first plate id, sometimes the last (then plate id 0 is an ordinary plate)
+    home = "p9" if (force == "plate0-masked" or rng.random() < 0.35) else "p0"
     rows = []   # (plate, sample, t1, t2)
     for s in samples:
         for t in treats:
-            rows.append(("p0", s, t, ctrl) if rng.random() < 0.5 else ("p0", s, ctrl, t))
+            rows.append((home, s, t, ctrl()) if rng.random() < 0.5 else (home, s, ctrl(), t))
     for _ in range(rng.randint(2, 4)):
-        rows.append(("p0", rng.choice(samples), rng.choice(treats), rng.choice(treats)))
+        rows.append((home, rng.choice(samples), rng.choice(treats), rng.choice(treats)))
     npl = rng.randint(2, 6 if big else 4)
-    for p in range(1, npl):
+    others = ["p%d" % p for p in range(1, npl)] if home == "p0" else ["p%d" % p for p in range(0, npl - 1)]
+    for p in others:
         for _ in range(rng.randint(1, 4)):
             r = rng.random()
             t1, t2 = rng.choice(treats), rng.choice(treats)
             if r < 0.15:
-                t2 = ctrl
+                t2 = ctrl()
             elif r < 0.25:
-                t1 = ctrl
+                t1 = ctrl()
             elif r < 0.3:
-                t1 = t2 = ctrl
-            rows.append(("p%d" % p, rng.choice(samples), t1, t2))
+                t1, t2 = ctrl(), ctrl()
+            rows.append((p, rng.choice(samples), t1, t2))
     if rng.random() < 0.5:
         rng.shuffle(rows)
+    if long_names:
+        rows = [(r[0] + LONG,) + r[1:] for r in rows]
+        home, others = home + LONG, [o + LONG for o in others]
     plates = sorted(set(r[0] for r in rows))
-    status = {p: (p == "p0" or rng.random() < 0.4) for p in plates}
+    status = {p: (p == home or rng.random() < 0.4) for p in plates}
     if all(status.values()):
-        status[rng.choice([p for p in plates if p != "p0"])] = False
+        status[rng.choice(others)] = False
+    if force == "plate0-masked":
+        status[plates[0]] = False
+    if force == "no-observed":
+        status = {p: False for p in plates}
     pool = [0.1, 0.25, 0.5, 0.75, 0.9, 0.33, 0.62, 0.05, 0.97]
     if rng.random() < 0.2:
         pool = pool + [0.0, 1.0, 1.5]     # legal but degenerate for the interaction model (logit without clip)
     obs = [rng.choice(pool) if status[r[0]] else 0.5 for r in rows]
-    return dict(ctrl="control", arity=2, tnames=[[r[2][0], r[3][0]] for r in rows], tdoses=[[r[2][1], r[3][1]] for r in rows],
-                snames=[r[1] for r in rows], pnames=[r[0] for r in rows], obs=obs, mask=[status[r[0]] for r in rows], tmap=None, smap=None)
+    raw = dict(ctrl="control", arity=2, tnames=[[r[2][0], r[3][0]] for r in rows], tdoses=[[r[2][1], r[3][1]] for r in rows],
+               snames=[r[1] for r in rows], pnames=[r[0] for r in rows], obs=obs, mask=[status[r[0]] for r in rows], tmap=None, smap=None)
+    if rng.random() < 0.25:
+        # ids that are not positions: mappings of a superset of the data (id gaps, other order)
+        tm, sm = S.superset_mappings(rng, raw)
+        raw["tmap"] = ([str(x) for x in tm[0]], [float(x) for x in tm[1]], [int(x) for x in tm[2]])
+        raw["smap"] = ([str(x) for x in sm[0]], [int(x) for x in sm[1]])
+    return raw
 
 
 def poisoned(raw, rng, kind):
@@ -130,6 +162,83 @@ def canon(x):
     if a.dtype.kind in "iub":
         return [str(a.dtype), list(a.shape), [int(v) for v in a.ravel()]]
     return repr(x)
+
+
+def build_layout(raw, variant):
+    """the same Screen as S.build(raw), from arrays with an unusual memory layout: strided views, Fortran order, negative strides,
+    read-only buffers, wider fixed-width string dtype"""
+    from batchie.data import Screen
+    n = len(raw["snames"])
+    a = raw["arity"]
+
+    def strided(x):
+        big = np.empty((2 * len(x),) + x.shape[1:], dtype=x.dtype)
+        big[::2] = x
+        big[1::2] = x[::-1] if len(x) else x
+        v = big[::2]
+        return v
+
+    def rev(x):
+        return np.ascontiguousarray(x[::-1])[::-1]      # negative stride
+
+    tn = np.array(raw["tnames"], dtype="<U64").reshape(n, a)
+    td = np.array(raw["tdoses"], dtype=float).reshape(n, a)
+    sn = np.array(raw["snames"], dtype="<U64")
+    pn = np.array(raw["pnames"], dtype="<U64")
+    ob = np.array(raw["obs"], dtype=float)
+    mk = np.array(raw["mask"], dtype=bool)
+    if variant == 0:
+        tn, td, sn, pn, ob, mk = np.asfortranarray(tn), np.asfortranarray(td), strided(sn), strided(pn), strided(ob), strided(mk)
+    else:
+        tn, td, sn, pn, ob, mk = rev(tn), rev(td), rev(sn), rev(pn), rev(ob), rev(mk)
+    for x in (tn, td, sn, pn, ob, mk):
+        x.setflags(write=False)
+    kw = dict(treatment_names=tn, treatment_doses=td, sample_names=sn, plate_names=pn, control_treatment_name=raw["ctrl"],
+              observations=ob, observation_mask=mk)
+    if raw.get("tmap") is not None:
+        kw["treatment_mapping"] = (np.array(raw["tmap"][0], dtype=str), np.array(raw["tmap"][1], dtype=float), np.array(raw["tmap"][2], dtype=int))
+    if raw.get("smap") is not None:
+        kw["sample_mapping"] = (np.array(raw["smap"][0], dtype=str), np.array(raw["smap"][1], dtype=int))
+    return Screen(**kw)
+
+
+def canon_obj(x, depth=0):
+    """canonical form of ANY attribute value, found by introspection (no hand-written attribute list)"""
+    if depth > 4:
+        return "..."
+    if isinstance(x, dict):
+        return {str(k): canon_obj(v, depth + 1) for k, v in sorted(x.items(), key=lambda kv: str(kv[0]))}
+    if isinstance(x, (list, tuple)):
+        return [canon_obj(v, depth + 1) for v in x]
+    if isinstance(x, np.ndarray) or isinstance(x, np.generic):
+        a = np.asarray(x)
+        if a.dtype.kind in "fiub":
+            return canon(a)
+        return [str(a.dtype.kind), list(a.shape), [str(v) for v in a.ravel()]]
+    if isinstance(x, float):
+        return ["float", S.bits(x)]
+    if isinstance(x, (int, str, bool)) or x is None:
+        return x
+    if isinstance(x, np.random.Generator):
+        return "<Generator>"
+    if hasattr(x, "__dict__") and depth < 3 and type(x).__module__.startswith("batchie") and type(x).__name__ not in ("ExperimentSpace",):
+        return {"<%s>" % type(x).__name__: canon_obj(vars(x), depth + 1)}
+    return "<%s>" % type(x).__name__
+
+
+def model_state(m):
+    """every attribute of the model wrapper and of the wrapped sampler"""
+    return canon_obj(vars(m))
+
+
+def snapshot(scr):
+    """bytes of every array the screen exposes (to detect in-place writes to the inputs, observed or masked)"""
+    out = {}
+    for name in ("observations", "observation_mask", "treatment_ids", "sample_ids", "plate_ids", "treatment_names", "treatment_doses",
+                 "sample_names"):
+        a = np.asarray(getattr(scr, name))
+        out[name] = (str(a.dtype), a.shape, np.ascontiguousarray(a).tobytes())
+    return out
 
 
 def train_arrays(kind, scr):
@@ -244,16 +353,20 @@ def theta_canon(th):
     return out
 
 
-def downstream(scr, th, batches, ncs):
-    """distance matrix, scores, selection for one screen + thetas; every value exact"""
+def downstream(scr, th, batches, ncs, reuse=False):
+    """distance matrix, scores, selection for one screen + thetas; every value exact.
+    reuse: ONE metric / scorer object serves every call (different chunk sizes, batches) instead of a fresh one per call"""
     from batchie.distance_calculation import calculate_pairwise_distance_matrix_on_predictions, ChunkedDistanceMatrix
     from batchie.distance.mse import MSEDistance
     from batchie.scoring.main import score_chunk, ChunkedScoresHolder, select_next_plate
     from batchie.scoring.gaussian_dbal import GaussianDBALScorer
     from batchie.scoring.rand import RandomScorer
     out = {}
-    parts = [calculate_pairwise_distance_matrix_on_predictions(thetas=th, distance_metric=MSEDistance(), data=scr, chunk_index=c, n_chunks=2)
+    metric = MSEDistance()
+    parts = [calculate_pairwise_distance_matrix_on_predictions(thetas=th, distance_metric=(metric if reuse else MSEDistance()), data=scr,
+                                                               chunk_index=c, n_chunks=2)
              for c in range(2)]
+    shared = {"dbal": GaussianDBALScorer(max_chunk=2, max_triples=50), "random": RandomScorer()}
     dm = ChunkedDistanceMatrix.concat(parts)
     out["distance"] = canon(dm.to_dense())
     for b in batches:
@@ -261,7 +374,7 @@ def downstream(scr, th, batches, ncs):
             for name, mk in (("dbal", lambda: GaussianDBALScorer(max_chunk=2, max_triples=50)), ("random", lambda: RandomScorer())):
                 hs = []
                 for idx in range(n):
-                    h = score_chunk(scorer=mk(), thetas=th, screen=scr, distance_matrix=dm, rng=np.random.default_rng(17 + idx), n_chunks=n,
+                    h = score_chunk(scorer=(shared[name] if reuse else mk()), thetas=th, screen=scr, distance_matrix=dm, rng=np.random.default_rng(17 + idx), n_chunks=n,
                                     chunk_index=idx, batch_plate_ids=list(b))
                     hs.append(h)
                 comb = ChunkedScoresHolder.concat(hs)
@@ -307,12 +420,14 @@ def run_cli_train(env, scr, kind, seed, batch=()):
                         "--n-burnin", "1", "--thin", "1", "--n-chains", "1", "--chain-index", "0", "--seed", str(seed)])
     th = ThetaHolder(n_thetas=3).load_h5(out)
     res = {"thetas": theta_canon(th)}
+    step = "calculate_distance_matrix"
     try:
         dmf = os.path.join(env, "dm_%d.h5" % k)
         _main(calculate_distance_matrix, ["calculate_distance_matrix", "--data", data, "--thetas", out, "--distance-metric", "MSEDistance",
                                           "--n-chunks", "1", "--chunk-index", "0", "--output", dmf])
         res["distance"] = canon(ChunkedDistanceMatrix.load(dmf).to_dense())
         sfs = []
+        step = "calculate_scores"
         for idx in range(2):
             sf = os.path.join(env, "s_%d_%d.h5" % (k, idx))
             argv = ["calculate_scores", "--scorer", "GaussianDBALScorer", "--data", data, "--thetas", out, "--distance-matrix", dmf,
@@ -324,6 +439,7 @@ def run_cli_train(env, scr, kind, seed, batch=()):
             res["scores%d" % idx] = [[int(x) for x in h.plate_ids], fbits(h.scores)]
             sfs.append(sf)
         selp = os.path.join(env, "sel_%d.txt" % k)
+        step = "select_next_plate"
         argv = ["select_next_plate", "--data", data, "--scores"] + sfs + ["--output", selp]
         if batch:
             argv += ["--batch-plate-id"] + [str(b) for b in batch]
@@ -331,8 +447,43 @@ def run_cli_train(env, scr, kind, seed, batch=()):
         with open(selp) as f:
             res["selected"] = f.read()
     except Exception as e:   # noqa: BLE001  (e.g. the interaction model cannot predict a treatment without single-agent data)
-        res["downstream_error"] = type(e).__name__
+        res["downstream_error"] = "%s in %s" % (type(e).__name__, step)
     return res
+
+
+def sub_main(path):
+    """entry point of the second interpreter process (other PYTHONHASHSEED): the command line chain for one screen"""
+    import json
+    quiet()
+    with open(path) as f:
+        job = json.load(f)
+    env = tempfile.mkdtemp(prefix="verif_c04_sub_")
+    try:
+        scr = S.build(job["raw"])
+        try:
+            out = run_cli_train(env, scr, job["kind"], job["seed"], job["batch"])
+        except Exception as e:   # noqa: BLE001
+            out = {"train_error": type(e).__name__}
+        with open(job["out"], "w") as f:
+            json.dump(out, f)
+    finally:
+        shutil.rmtree(env, ignore_errors=True)
+
+
+def chain_in_other_process(env, raw, kind, seed, batch):
+    import json
+    import subprocess
+    job = os.path.join(env, "job_%d.json" % run_cli_train.k)
+    outp = job + ".out"
+    with open(job, "w") as f:
+        json.dump({"raw": raw, "kind": kind, "seed": seed, "batch": [int(b) for b in batch], "out": outp}, f)
+    e = dict(os.environ, PYTHONHASHSEED="4242", BATCHIE_REPO=common.REPO)
+    code = "import sys; sys.path.insert(0, %r); from harness import c04; c04.sub_main(sys.argv[1])" % common.VERIF
+    p = subprocess.run([sys.executable, "-c", code, job], env=e, stdout=subprocess.PIPE, stderr=subprocess.STDOUT, text=True, timeout=300)
+    if not os.path.exists(outp):
+        raise RuntimeError("second process failed: " + p.stdout[-500:])
+    with open(outp) as f:
+        return json.load(f)
 
 
 run_cli_train.k = 0
@@ -345,24 +496,39 @@ def one_pair(ctx, res, env, case, lines, expect_cb, heavy=True, cli=False):
     rawB = poisoned(rawA, prng, case["poison"])
     scrA = S.build(rawA)
     try:
-        scrB = S.build(rawB)
+        scrB = S.build(rawB) if case.get("layout") is None else build_layout(rawB, case["layout"])
+        if case.get("layout") is not None:
+            res.count("class.layout.readonly-strided-fortran-U64")
     except Exception as e:   # noqa: BLE001
         res.evaluations += 1
         res.fail("a screen that differs from an accepted one only behind the mask is refused", dict(case), "%s: %s" % (type(e).__name__, e),
                  "masked values have no influence: the screen is accepted like its twin", signature="C04:masked-value-refused")
         return
     n_masked = sum(1 for m in rawA["mask"] if not m)
+    snapA, snapB = snapshot(scrA), snapshot(scrB)
     for kind in case.get("models", ["combo", "interaction"]):
         res.evaluations += 1
         c = dict(case, model=kind)
         try:
             mA, recA = train_arrays(kind, scrA)
+            stA = model_state(mA)
             mB, recB = train_arrays(kind, scrB)
         except Exception as e:   # noqa: BLE001
             res.fail("training on the observed subset raised", c, "%s: %s" % (type(e).__name__, e), "training succeeds: masked values must not matter",
                      signature="C04:train-raises:" + kind)
             continue
         a, b = rec_canon(recA), rec_canon(recB)
+        # attribute completeness: EVERY attribute of the model and of the wrapped sampler, found by introspection
+        stB = model_state(mB)
+        res.count("class.attribute-completeness.model-state")
+        if stA != stB:
+            res.fail("some attribute of the trained model differs between screens that differ only behind the mask", c,
+                     {"differs_in": first_diff(stA, stB)}, "every attribute identical", signature="C04:train-interference:" + kind)
+        # aliasing: what the first model recorded is unchanged after the second model was trained
+        if rec_canon(record(kind, mA)) != a or model_state(mA) != stA:
+            res.fail("training a second model changed what the first model had recorded (shared storage)", c, "changed", "unchanged",
+                     signature="C04:aliasing:" + kind)
+        incremental(ctx, res, c, kind, scrA, scrB)
         if a != b:
             res.fail("training arrays differ between screens that differ only behind the mask", c, {"differs_in": first_diff(a, b), "A": a, "B": b},
                      "identical", signature="C04:train-interference:" + kind)
@@ -387,14 +553,27 @@ def one_pair(ctx, res, env, case, lines, expect_cb, heavy=True, cli=False):
             pl = sorted(set(int(x) for x in scrA.plate_ids))
             unobs = [p for p in pl if not scrA.get_plate(p).is_observed]
             batches = [[]] + ([[unobs[0]]] if len(unobs) >= 2 else []) + ([[pl[0]]] if case["seed"] % 3 == 0 else [])
+            if len(unobs) >= 3:
+                batches.append(unobs[:-1])                      # batch of >= 2 plates, one candidate left
+                res.count("class.size.batch>=2")
+            if case["seed"] % 4 == 2:
+                batches = [[np.int64(x) for x in b] for b in batches]
+                res.count("class.dtype.np-int64-batch-ids")
             ncs = case.get("ncs", [1, 2])
+            if len(unobs) < max(ncs):
+                res.count("class.size.more-chunks-than-plates")
+            if len(unobs) > 2:
+                res.count("class.size.plates>max_chunk")
+            reuse = case["seed"] % 2 == 1
+            if reuse:
+                res.count("class.object-reuse.scorer-metric")
             try:
-                dA = downstream(scrA, thA, batches, ncs)
+                dA = downstream(scrA, thA, batches, ncs, reuse)
                 errA = None
             except Exception as e:   # noqa: BLE001
                 dA, errA = None, type(e).__name__
             try:
-                dB = downstream(scrB, thB, batches, ncs)
+                dB = downstream(scrB, thB, batches, ncs, reuse)
                 errB = None
             except Exception as e:   # noqa: BLE001
                 dB, errB = None, type(e).__name__
@@ -421,6 +600,16 @@ def one_pair(ctx, res, env, case, lines, expect_cb, heavy=True, cli=False):
                 res.count("cli.chain.%s" % case["poison"])
                 if "downstream_error" in ca or "downstream_error" in cb:
                     res.count("cli.chain.downstream-error.%s" % kind)
+                if kind == "combo" and case["seed"] % 5 == 1:
+                    # cross-process determinism: the poisoned screen once more, in ANOTHER interpreter with another PYTHONHASHSEED
+                    import json
+                    cc_ = chain_in_other_process(env, rawB, kind, 5, cbatch)
+                    res.count("class.cross-process.cli-chain-other-hashseed")
+                    if cc_ != json.loads(json.dumps(ca)):
+                        k_ = first_diff(cc_, json.loads(json.dumps(ca)))
+                        res.fail("command line chain in a second interpreter process (other PYTHONHASHSEED) on the poisoned screen differs from the "
+                                 "chain on its twin", dict(c, via="cli-subprocess"), {"differs_in": k_, "other_process": str(cc_.get(k_))[:300]},
+                                 "identical", signature="C04:cli-interference:" + kind)
                 if ca != cb:
                     res.fail("command line chain (train_model / calculate_distance_matrix / calculate_scores / select_next_plate) gives different "
                              "output for screen files that differ only behind the mask", dict(c, via="cli"),
@@ -429,14 +618,100 @@ def one_pair(ctx, res, env, case, lines, expect_cb, heavy=True, cli=False):
             except Exception as e:   # noqa: BLE001
                 res.fail("train_model CLI raised on a partially observed screen file", dict(c, via="cli"), "%s: %s" % (type(e).__name__, e),
                          "trains on the observed subset whatever is stored behind the mask", signature="C04:cli-raises:" + kind)
+    # ---- input mutation: nothing the pipeline was given may have been written to (observed or masked cells)
+    res.count("class.input-mutation.screen-arrays")
+    for tag, scr, snap in (("A", scrA, snapA), ("B", scrB, snapB)):
+        now = snapshot(scr)
+        if now != snap:
+            res.fail("the pipeline wrote into the screen it was given", dict(case, screen=tag),
+                     {"changed": [k for k in snap if snap[k] != now[k]]}, "inputs unchanged", signature="C04:input-mutated")
     # ---- refusals and the private entry point, once per pair
     refusals(ctx, res, case, rawA, rawB, scrA, lines, expect_cb)
     direct_views(ctx, res, case, rawA, rawB, scrA, scrB, lines, expect_cb)
-    if n_masked and case["poison"] in ("nan", "negative", "mixed"):
+    classes(res, case, rawA, scrA)
+    if n_masked and case["poison"] in ("nan", "negative", "mixed", "inf", "neginf"):
         exp, use = expected_training("interaction", scrA)
         singles = sum(1 for t in np.asarray(scrA.treatment_ids)[np.asarray(scrA.observation_mask)] if list(t).count(-1) == 1)
         if len(use) >= 2 and singles >= 1:
             res.nontrivial.add(common.short_hash([rawA, case["poison"], case["seed"]]))
+
+
+def classes(res, case, raw, scr):
+    """counters of the hardening-checklist input classes this pair belongs to"""
+    pn = raw["pnames"]
+    mask = raw["mask"]
+    plates = sorted(set(pn))
+    runs = sum(1 for i in range(len(pn)) if i == 0 or pn[i] != pn[i - 1])
+    if runs > len(plates):
+        res.count("class.rows.plates-interleaved")
+    flips = sum(1 for i in range(1, len(mask)) if mask[i] != mask[i - 1])
+    if flips >= 2:
+        res.count("class.rows.observed-between-masked")
+    if not mask[pn.index(plates[0])]:
+        res.count("class.falsy.plate-id-0-masked")
+    if not any(mask):
+        res.count("class.falsy.nothing-observed")
+    if case["seed"] % 1000 == 0:
+        res.count("class.falsy.sampling-seed-0")
+    if case["poison"] in ("zero", "negzero"):
+        res.count("class.falsy.masked-value-0")
+    if raw.get("tmap") is not None:
+        res.count("class.ids.supplied-mappings-with-gaps")
+    if any(len(x) >= 25 for x in raw["snames"]):
+        res.count("class.dtype.names>=25chars")
+    tn, td = raw["tnames"], raw["tdoses"]
+    if any((n == "control" and d > 0) for r, rd in zip(tn, td) for n, d in zip(r, rd)):
+        res.count("class.ids.named-control-positive-dose")
+    if any((n != "control" and d <= 0) for r, rd in zip(tn, td) for n, d in zip(r, rd)):
+        res.count("class.ids.drug-at-dose-0-is-control")
+    sids = [int(x) for x in scr.sample_ids]
+    tids = [tuple(int(y) for y in r) for r in np.asarray(scr.treatment_ids)]
+    singles = {}
+    for i, (s_, t_) in enumerate(zip(sids, tids)):
+        if t_.count(-1) == 1:
+            singles.setdefault((s_, max(t_)), set()).add(t_.index(-1))
+    if any(len(v) == 2 for v in singles.values()):
+        res.count("class.rows.single-agent-in-both-positions")
+
+
+def incremental(ctx, res, c, kind, scrA, scrB):
+    """object reuse: ONE model object receives the observed rows in two instalments (different sizes): afterwards it must hold each
+    observed row exactly once, in order, and the same on both screens of the pair"""
+    from batchie.data import ExperimentSpace
+    mask = np.asarray(scrA.observation_mask, dtype=bool)
+    idx = [int(i) for i in np.where(mask)[0]]
+    if len(idx) < 2:
+        return
+    rng = ctx.subrng("c04-incr", c["seed"], kind)
+    first = set(rng.sample(idx, rng.randint(1, len(idx) - 1)))
+    sel1 = np.array([i in first for i in range(len(mask))], dtype=bool)
+    sel2 = mask & ~sel1
+    cls = get_model_cls(kind)
+    outs = []
+    for scr in (scrA, scrB):
+        m = cls(experiment_space=ExperimentSpace.from_screen(scr), n_embedding_dimensions=2)
+        try:
+            m.add_observations(scr.subset(sel1))
+            m.add_observations(scr.subset(sel2))
+            outs.append(rec_canon(record(kind, m)))
+        except Exception as e:   # noqa: BLE001
+            outs.append(S.err_tok(e))
+    res.evaluations += 1
+    res.count("class.object-reuse.model-two-instalments")
+    if outs[0] != outs[1]:
+        res.fail("a model trained in two instalments differs between screens that differ only behind the mask", dict(c, check="incremental"),
+                 {"A": outs[0], "B": outs[1]}, "identical", signature="C04:train-interference:" + kind)
+    e1, _ = expected_training(kind, scrA, [bool(x) for x in sel1])
+    e2, _ = expected_training(kind, scrA, [bool(x) for x in sel2])
+    exp = {k: e1[k] + e2[k] for k in ("y", "cline", "dd1", "dd2", "n_obs")}
+    if kind == "interaction":
+        d = {tuple(k): v for k, v in e1["single"]}
+        d.update({tuple(k): v for k, v in e2["single"]})
+        exp["single"] = sorted((list(k), v) for k, v in d.items())
+    if outs[0] != exp:
+        res.fail("a model trained in two instalments does not hold every observed row exactly once", dict(c, check="incremental"),
+                 outs[0] if isinstance(outs[0], str) else {"differs_in": first_diff(outs[0], exp), "got": outs[0]}, exp,
+                 signature="C04:trained-rows:" + kind)
 
 
 def refusals(ctx, res, case, rawA, rawB, scrA, lines, expect_cb):
@@ -648,12 +923,14 @@ def run(ctx, res):
     try:
         rng = ctx.subrng("c04")
         n_pairs = ctx.scale(100, 1500, 400)
-        n_cli = ctx.scale(3, 12, 4)
-        kinds = [p[0] for p in POISONS] + ["mixed"]
+        n_cli = ctx.scale(5, 18, 5)
+        kinds = KIND_ORDER
         for t in range(n_pairs):
-            raw = gen_base(rng, big=(ctx.tier != "quick"))
-            poison = kinds[(t + 3) % len(kinds)]
-            case = {"raw": raw, "poison": poison, "seed": t, "ncs": [1, 2] if ctx.tier == "quick" else [1, 2, 3, 5]}
+            force = {5: "no-observed", 6: "plate0-masked", 7: "plate0-masked"}.get(t % 50)
+            raw = gen_base(rng, big=(ctx.tier != "quick"), force=force)
+            poison = kinds[t % len(kinds)]
+            case = {"raw": raw, "poison": poison, "seed": t, "ncs": [1, 2] if ctx.tier == "quick" else [1, 2, 3, 5],
+                    "layout": {1: 0, 2: 1}.get(t % 4)}
             heavy = True
             one_pair(ctx, res, env, case, lines, expect_cb, heavy=heavy, cli=(t < n_cli))
             res.count("poison." + poison)
@@ -686,10 +963,10 @@ def replay(ctx, case, res):
                 res.fail("training outcome differs between screens that differ only behind the mask", case, {"A": outs[0], "B": outs[1]}, "identical",
                          signature="C04:train-interference:" + case["model"])
             return
-        c = {k: case[k] for k in ("raw", "poison", "seed") if k in case}
+        c = {k: case[k] for k in ("raw", "poison", "seed", "layout") if k in case}
         c["ncs"] = case.get("ncs", [1, 2])
         if "model" in case:
             c["models"] = [case["model"]]
-        one_pair(ctx, res, env, c, [], [], heavy=True, cli=(case.get("via") == "cli"))
+        one_pair(ctx, res, env, c, [], [], heavy=True, cli=(str(case.get("via", "")).startswith("cli")))
     finally:
         shutil.rmtree(env, ignore_errors=True)
